@@ -28,7 +28,7 @@ inline Prog decode(hz::Reader &r) {
 inline std::string describe(const Prog &p) {
     static const char *ck[] = {"from promise-function (promise kept)", "from promise-function (resolved inside)", "from future-returning function (pending)", "from future-returning function (ready)", "default-constructed + get_promise()",
                                "set_value() factory", "set_exception() factory", "default-constructed, init_if_needed(), << function returning a pending future"};
-    static const char *wa[] = {"wait()", "co_await own copy", "drop handle while pending", "poll ready() then value()", "copy, drop original, wait()"};
+    static const char *wa[] = {"wait()", "co_await own copy", "drop handle while pending", "poll ready() then value()", "copy, drop original, self-assign the copy, wait()"};
     static const char *ra[] = {"value", "exception", "drop"};
     hz::Desc d; d << "shared_future<" << (p.vt ? "Counted" : "int") << "> " << ck[p.ck] << "; resolver thread: yield*" << (unsigned)p.res_yields << ", " << ra[p.ra] << "; workers:";
     for (auto &w : p.w) d << " [yield*" << (unsigned)w.yields << ", " << wa[w.action] << "]";
@@ -72,7 +72,11 @@ struct Ctx {
             case WA_COAWAIT: { cocls::future<void> done = awaiter(i, sf).start(); sf = SF(); done.wait(); } break;
             case WA_DROP_PENDING: sf = SF(); break;
             case WA_POLL: while (!sf.ready()) vrt::yield(); code[i] = guarded([&] { return ST<VT>::dec(sf.value()); }); resumes[i]++; break;
-            default: { SF copy(sf); sf = SF(); hz::upoint(); code[i] = guarded([&] { return ST<VT>::dec(copy.wait()); }); resumes[i]++; } break;
+            default: {
+                SF copy(sf); sf = SF(); hz::upoint();
+                { SF &alias = copy; copy = alias; }        // assignment of a handle to itself through an alias changes nothing
+                code[i] = guarded([&] { return ST<VT>::dec(copy.wait()); }); resumes[i]++;
+            } break;
         }
     }
 };
